@@ -112,6 +112,85 @@ def walkKids (exts : List When) : List Tree → List Event
     if r.2 then r.1 else r.1 ++ walkKids exts ts
 end
 
+/-! ### The general walk: pruning raised by the main visitor's `depart_*`, and nodes the main visitor
+visits from inside its own `visit_*`
+
+Two things the code does that the tree-with-one-action-per-node picture leaves out:
+
+* `dact id` — the pruning exception the MAIN visitor's `depart_*` raises for node `id`
+  (`.none`: it returns).  `Visitor.depart` runs `super().depart(ob)` unguarded: the exception skips the
+  AFTER and OUTTER extensions of the node and leaves `walkabout(ob)` (the call `self.depart(...)` is outside
+  every `try`).  In the parent it arrives inside `for child …: self.walkabout(child)`: `SkipSiblings` is
+  caught by the loop's `except SkipSiblings`, `SkipChildren` by the outer `except SkipChildren` (both end
+  the loop, the parent is departed), `SkipNode` / `SkipDeparture` are caught nowhere and leave every
+  enclosing `walkabout` at once.
+* `inl id` — the nodes the main visitor's `visit_*` of node `id` visits itself through
+  `Visitor.visit(child)` (`ModuleVistor.visit_Expr` → `NodeVisitor.generic_visit`): the complete enter
+  block of each of them (extensions and main visitor) happens inside the main visitor's visit of `id`,
+  that is before the AFTER and INNER extensions enter `id`; nobody departs them.
+
+Second component of the result: the exception that leaves `walkabout` (`none`: it returns). -/
+
+def visitEventsG (inl : Nat → List Nat) (exts : List When) (id : Nat) : List Event :=
+  evs .visit id (extsOf exts .before ++ extsOf exts .outter)
+    ++ [⟨.main, .visit, id⟩]
+    ++ (inl id).flatMap (visitEvents exts)
+    ++ evs .visit id (extsOf exts .after ++ extsOf exts .inner)
+
+/-- `Visitor.depart(ob, extensions_only)` when the main `depart_*` may raise. -/
+def departEventsG (dact : Nat → Act) (exts : List When) (id : Nat) (extOnly : Bool) : List Event × Option Act :=
+  let pre := evs .depart id (extsOf exts .before ++ extsOf exts .inner)
+  let post := evs .depart id (extsOf exts .after ++ extsOf exts .outter)
+  if extOnly then (pre ++ post, none)
+  else if dact id = .none then (pre ++ [⟨.main, .depart, id⟩] ++ post, none)
+  else (pre ++ [⟨.main, .depart, id⟩], some (dact id))
+
+/-- the tail of `walkabout`: `self.depart(ob, extensions_only=not call_depart)`, then `raise skip_siblings`
+if the visit asked for it. -/
+def finishG (dact : Nat → Act) (exts : List When) (id : Nat) (act : Act) (tr : List Event) (extOnly : Bool) :
+    List Event × Option Act :=
+  let d := departEventsG dact exts id extOnly
+  match d.2 with
+  | some e => (tr ++ d.1, some e)
+  | none => (tr ++ d.1, if act = .skipSiblings then some .skipSiblings else none)
+
+mutual
+def walkaboutG (inl : Nat → List Nat) (dact : Nat → Act) (exts : List When) : Tree → List Event × Option Act
+  | .node id act cs =>
+    let v := visitEventsG inl exts id
+    match act with
+    | .skipNode      => finishG dact exts id .skipNode v true
+    | .skipChildren  => finishG dact exts id .skipChildren v false
+    | .skipDeparture =>
+      let k := walkChildrenG inl dact exts cs
+      match k.2 with
+      | some .skipNode => (v ++ k.1, some .skipNode)
+      | some .skipDeparture => (v ++ k.1, some .skipDeparture)
+      | _ => finishG dact exts id .skipDeparture (v ++ k.1) true
+    | .none =>
+      let k := walkChildrenG inl dact exts cs
+      match k.2 with
+      | some .skipNode => (v ++ k.1, some .skipNode)
+      | some .skipDeparture => (v ++ k.1, some .skipDeparture)
+      | _ => finishG dact exts id .none (v ++ k.1) false
+    | .skipSiblings =>
+      let k := walkChildrenG inl dact exts cs
+      match k.2 with
+      | some .skipNode => (v ++ k.1, some .skipNode)
+      | some .skipDeparture => (v ++ k.1, some .skipDeparture)
+      | _ => finishG dact exts id .skipSiblings (v ++ k.1) false
+/-- the children loop; second component: the exception that ended it (whoever catches it). -/
+def walkChildrenG (inl : Nat → List Nat) (dact : Nat → Act) (exts : List When) : List Tree → List Event × Option Act
+  | [] => ([], none)
+  | t :: ts =>
+    let r := walkaboutG inl dact exts t
+    match r.2 with
+    | some e => (r.1, some e)
+    | none =>
+      let k := walkChildrenG inl dact exts ts
+      (r.1 ++ k.1, k.2)
+end
+
 /-! ### Specification side: what the pruning actions *mean* (from the class docstrings) -/
 
 /-- A pruned tree: the nodes that are reached, with a flag saying whether the main visitor's
